@@ -177,7 +177,8 @@ impl IndicatorInstance for TrendStrengthIndexInstance {
 		// sy2 is always greater than sma * sy, so q is always positive
 		let q = self.k * sma.mul_add(-self.sy, self.sy2);
 
-		let value = p / q.sqrt();
+		// flat window: the correlation is undefined (0/0), report no trend instead of NaN
+		let value = if q > 0.0 { p / q.sqrt() } else { 0.0 };
 
 		let cross_signal = self.cross_under.next(&(value, self.cfg.zone))
 			- self.cross_above.next(&(value, -self.cfg.zone));
